@@ -234,11 +234,18 @@ def available_unbound(F, e):
     cls = e.__class__.__name__
     if cls == "Buffer":
         d = edge_delay(F, e)
+        per_item = None
+        if not isinstance(d, (int, float)):
+            # a delay source: the k-th put on this edge drew the k-th value of the source (one edge per source)
+            vals = [v for (owner, t, v, k) in F.delay_calls if owner == getattr(F, "delay_owner", {}).get(e.id)]
+            puts = [ev[4] for ev in F.events if ev[0] == "put" and ev[2] is e]
+            per_item = {id(rec): vals[i] for i, rec in enumerate(puts) if i < len(vals)}
         n = 0
         for r in F.items.values():
             if r.loc == ("edge", e):
                 tput = r.hist[-1][1]
-                if tput + d <= now:
+                dd = per_item.get(id(r), 0) if per_item is not None else d
+                if tput + dd <= now:
                     n += 1
     else:
         # fleets / conveyors: availability is what the edge itself reports (its timing is checked by C12-C14)
@@ -538,6 +545,11 @@ def fan(props=("C03", "C08", "C10"), n_src=2, n_out=1, n_items=2, w=1, blocking=
             pd = ctx.real("pd", 0, 4) if "pd" in sym else 1
             pds = [pd] * (n_src * n_items + 2)
         od = ctx.real("od", 0, 4) if out_delay == "sym" else out_delay
+        F.delay_owner = {}
+        if out_delay == "sym-each":
+            assert n_out == 1
+            od = F.delay_source("OUTDELAY", [ctx.real("od", 0, 4) for _ in range(n_src * n_items)], "generator", after=0)
+            F.delay_owner["OUT0"] = "OUTDELAY"
         idl = ctx.real("id", 0, 2) if in_delay in ("sym", "sym-last") else in_delay
         tot = n_src * n_items
         m = F.add_node(Machine(env, "M", work_capacity=w, processing_delay=F.delay_source("M", pds, delay_kind, after=1), blocking=blocking,
